@@ -92,11 +92,12 @@ Cases(b) ==
                      SrcCase("JSON", <<i>>), SrcCase("RegExp", <<i>>), SrcCase("Call", <<i>>), SrcCase("Object", <<i>>), SrcCase("Get", <<i>>), SrcCase("Set", <<i>>)}
                     \cup {SrcCase("Run", <<i, t2>>) : t2 \in 1..NT}
                     \cup {SrcCase(Pick(SrcAPIs, i + t2), <<i, t2>>) : t2 \in 1..NT}
-                    \cup {SrcCase("Run", <<i, t2, t3>>) : t2 \in 1..NT, t3 \in 1..NT}
                     \cup {SrcCase(Pick(SrcAPIs, i + t2 + t3), <<i, t2, t3>>) : t2 \in 1..NT, t3 \in 1..NT}
+                    \cup (IF Deep = 1 THEN {SrcCase("Run", <<i, t2, t3>>) : t2 \in 1..NT, t3 \in 1..NT} ELSE {})
                ELSE {SrcCase(Pick(SrcAPIs, i + j + t3 + t4), <<i, j, t3, t4>>) : t3 \in 1..S!NCoreTok, t4 \in 1..S!NCoreTok}
           [] fam = "nest" ->
-               {NestCase(api, i, NestReps[r]) : api \in {NestAPIs[x] : x \in 1..Len(NestAPIs)}, r \in 1..Len(NestReps)}
+               \* a pattern of 100 KB matched against itself is quadratic work in the regular expression engine: a resource matter
+               {c \in {NestCase(api, i, NestReps[r]) : api \in {NestAPIs[x] : x \in 1..Len(NestAPIs)}, r \in 1..Len(NestReps)} : ~(c.api = "RegExp" /\ c.rep > 5000)}
           [] fam = "rec" ->
                LET form == AllRecForms[i]
                    bounded == i <= Len(S!RecForms)
